@@ -41,6 +41,9 @@ import EPV.Gen.Cog18
 import EPV.Gen.Cog19
 import EPV.Gen.Cog21
 import EPV.Lemmas.HydroTactics
+import EPV.Lemmas.Bridge.Cog19
+import EPV.Lemmas.Bridge.Cog9
+import EPV.Lemmas.Bridge.Cog18
 
 set_option linter.all false
 
@@ -100,17 +103,20 @@ theorem noh_shock_compressive (p : Noh.P) (r t : ℝ) (hγ : 1 < p.gamma) (hρ :
   have hbase : 1 + |p.u0| * t / nohShock p t = (p.gamma + 1) / (p.gamma - 1) := by
     unfold nohShock; field_simp; ring
   have hns : nohShock p t = |p.u0| * t * (p.gamma - 1) / 2 := rfl
+  -- the branch is selected with the documented condition, the leaves enter through their documented closed forms
+  have hc_in : Noh.c0 p r t := (EPV.Bridge.noh_c0_iff p r t).2 (by rw [hns] at hr; exact hr)
+  have hc_out : ¬ Noh.c0 p (nohShock p t) t := (EPV.Bridge.noh_not_c0_iff p (nohShock p t) t).2 (by rw [hns])
   have hin : Noh.density p r t = p.rho0 * ((p.gamma + 1) / (p.gamma - 1)) ^ p.geometry := by
-    epv_select; simp only [epv_leaf]; ring
+    simp only [epv_tree, if_pos hc_in, EPV.Bridge.noh_L0_density]
   have hout : Noh.density p (nohShock p t) t = p.rho0 * ((p.gamma + 1) / (p.gamma - 1)) ^ (p.geometry - 1) := by
-    epv_select; simp only [epv_leaf]; rw [hbase]
+    simp only [epv_tree, if_neg hc_out, EPV.Bridge.noh_L1_density]; rw [hbase]
   have hpin : Noh.pressure p r t
       = (p.gamma - 1) * p.rho0 * ((p.gamma + 1) / (p.gamma - 1)) ^ p.geometry * p.u0 ^ 2 / 2 := by
-    epv_select; simp only [epv_leaf]; ring
+    simp only [epv_tree, if_pos hc_in, EPV.Bridge.noh_L0_pressure]
   have hpout : Noh.pressure p (nohShock p t) t = 0 := by
-    epv_select; simp only [epv_leaf]
+    simp only [epv_tree, if_neg hc_out, EPV.Bridge.noh_L1_pressure]
   have hvout : Noh.velocity p (nohShock p t) t = p.u0 := by
-    epv_select; simp only [epv_leaf]; ring
+    simp only [epv_tree, if_neg hc_out, EPV.Bridge.noh_L1_velocity]
   have hpow : ((p.gamma + 1) / (p.gamma - 1)) ^ p.geometry
       = (p.gamma + 1) / (p.gamma - 1) * ((p.gamma + 1) / (p.gamma - 1)) ^ (p.geometry - 1) := by
     rw [Real.rpow_sub_one hB0.ne']; field_simp
@@ -220,8 +226,7 @@ theorem cog19_admissible (p : Cog19.P) (r t : ℝ) (hγ : 1 < p.gamma) (hρ : 0 
 noncomputable def cog19Shock (p : Cog19.P) (t : ℝ) : ℝ := -(p.gamma - 1) * p.u0 * t / 2
 
 theorem cog19_shock_is_coded (p : Cog19.P) (r t : ℝ) : Cog19.leaf p r t = 0 ↔ r < cog19Shock p t := by
-  simp only [epv_tree]
-  split_ifs with h <;> simp only [epv_cond] at h <;> simpa [cog19Shock] using h
+  rw [EPV.Bridge.cog19_leaf_zero_iff, EPV.Bridge.cog19_c0_iff, cog19Shock]
 
 theorem cog19_shock_speed (p : Cog19.P) (t : ℝ) :
     HasDerivAt (cog19Shock p) (-(p.gamma - 1) * p.u0 / 2) t := by
@@ -247,18 +252,22 @@ theorem cog19_shock_compressive (p : Cog19.P) (r t : ℝ) (hγ : 1 < p.gamma) (h
     rw [div_eq_div_iff this hg.ne']
     unfold cog19Shock; ring
   have hns : cog19Shock p t = -(p.gamma - 1) * p.u0 * t / 2 := rfl
+  -- the branch is selected with the documented condition, the leaves enter through their documented closed forms
+  have hc_in : Cog19.c0 p r t := (EPV.Bridge.cog19_c0_iff p r t).2 (by rw [hns] at hr; linarith)
+  have hc_out : ¬ Cog19.c0 p (cog19Shock p t) t :=
+    (EPV.Bridge.cog19_not_c0_iff p (cog19Shock p t) t).2 (by rw [hns])
   have hin : Cog19.density p r t = p.rho0 * ((p.gamma + 1) / (p.gamma - 1)) ^ ((p.geometry - 1) + 1) := by
-    epv_select; simp only [epv_leaf]; ring
+    simp only [epv_tree, if_pos hc_in, EPV.Bridge.cog19_L0_density]
   have hout : Cog19.density p (cog19Shock p t) t
       = p.rho0 * ((p.gamma + 1) / (p.gamma - 1)) ^ (p.geometry - 1) := by
-    epv_select; simp only [epv_leaf]; rw [hbase]; ring
+    simp only [epv_tree, if_neg hc_out, EPV.Bridge.cog19_L1_density p _ t hs.ne']; rw [hbase]
   have hpin : Cog19.pressure p r t = p.Gamma * (p.rho0 * ((p.gamma + 1) / (p.gamma - 1)) ^ ((p.geometry - 1) + 1))
       * (p.u0 ^ 2 * (p.gamma - 1) / (2 * p.Gamma)) := by
-    epv_select; simp only [epv_leaf]; ring
+    simp only [epv_tree, if_pos hc_in, EPV.Bridge.cog19_L0_pressure]
   have hpout : Cog19.pressure p (cog19Shock p t) t = 0 := by
-    epv_select; simp only [epv_leaf]; ring
+    simp only [epv_tree, if_neg hc_out, EPV.Bridge.cog19_L1_pressure]
   have hvout : Cog19.velocity p (cog19Shock p t) t = p.u0 := by
-    epv_select; simp only [epv_leaf]; ring
+    simp only [epv_tree, if_neg hc_out, EPV.Bridge.cog19_L1_velocity]
   have hpow : ((p.gamma + 1) / (p.gamma - 1)) ^ ((p.geometry - 1) + 1)
       = (p.gamma + 1) / (p.gamma - 1) * ((p.gamma + 1) / (p.gamma - 1)) ^ (p.geometry - 1) := by
     rw [Real.rpow_add_one hB0.ne']; ring
@@ -298,8 +307,11 @@ theorem cog9_admissible (p : Cog9.P) (r t : ℝ) (hγ : 1 < p.gamma) (hρ : 0 < 
   have ht : 0 < t := by epv_domain hok
   have hd : 0 < Cog9.density p r t := by epv_positivity
   have hT : 0 ≤ Cog9.temperature p r t := by
-    epv_select; simp only [epv_leaf]
     have hden : 2 * p.alpha - 2 * p.beta - (p.geometry - 1) - 7 < 0 := by linarith
+    have hc3 : 0 < 2 + (p.gamma - 1) * ((p.geometry - 1) + 1) := by positivity
+    have hnan : ¬ Cog9.c0 p r t := by rw [EPV.Bridge.cog9_c0_iff]; linarith
+    simp only [epv_tree, if_neg hnan]
+    rw [EPV.Bridge.cog9_L1_temperature p r t hΓ.ne' hc3.ne' hden.ne ht.ne']
     have hnum : 2 * p.alpha * (p.gamma - 1) * ((p.geometry - 1) + 1) / p.Gamma
         / (2 + (p.gamma - 1) * ((p.geometry - 1) + 1)) ^ 2 ≤ 0 := by
       apply div_nonpos_of_nonpos_of_nonneg _ (by positivity)
@@ -311,7 +323,8 @@ theorem cog9_admissible (p : Cog9.P) (r t : ℝ) (hγ : 1 < p.gamma) (hρ : 0 < 
   have hp : Cog9.pressure p r t = p.Gamma * Cog9.density p r t * Cog9.temperature p r t := by
     simp only [epv_tree]; split_ifs <;> (try simp only [epv_leaf]) <;> ring
   have he : Cog9.specific_internal_energy p r t = Cog9.pressure p r t / Cog9.density p r t / (p.gamma - 1) := by
-    simp only [epv_tree]; split_ifs <;> (try simp only [epv_leaf]) <;> ring
+    clear hp hT
+    epv_hydro_via_atoms (Cog9.pressure p r t) (Cog9.density p r t)
   have hp0 : 0 ≤ Cog9.pressure p r t := by rw [hp]; positivity
   exact ⟨hd, hT, hp0, by rw [he]; positivity⟩
 
@@ -326,18 +339,20 @@ theorem cog18_admissible (p : Cog18.P) (r t : ℝ) (hρ : 0 < p.rho0) (hΓ : 0 <
     rw [sub_pos, lt_div_iff₀ hk]; linarith
   have hd : 0 < Cog18.density p r t := by epv_positivity
   have hT : 0 ≤ Cog18.temperature p r t := by
-    simp only [epv_tree, epv_leaf]
     have hden : 2 * p.alpha - 2 * p.beta - (p.geometry - 1) - 7 < 0 := by linarith
+    simp only [epv_tree]
+    rw [EPV.Bridge.cog18_L0_temperature p r t hΓ.ne' hden.ne hx.ne']
     have hnum : p.alpha * p.tau ^ 2 / p.Gamma ≤ 0 := by
       apply div_nonpos_of_nonpos_of_nonneg _ hΓ.le
       nlinarith [sq_nonneg p.tau]
     have := div_nonneg_of_nonpos hnum hden.le
     positivity
   have hp : Cog18.pressure p r t = p.Gamma * Cog18.density p r t * Cog18.temperature p r t := by
-    simp only [epv_tree, epv_leaf]
+    simp only [epv_tree, epv_leaf] <;> ring
   have he : Cog18.specific_internal_energy p r t
       = Cog18.pressure p r t / Cog18.density p r t / (((p.geometry - 1) + 3) / ((p.geometry - 1) + 1) - 1) := by
-    simp only [epv_tree, epv_leaf]
+    clear hp hT
+    epv_hydro_via_atoms (Cog18.pressure p r t) (Cog18.density p r t)
   have hp0 : 0 ≤ Cog18.pressure p r t := by rw [hp]; positivity
   exact ⟨hd, hT, hp0, by rw [he]; positivity⟩
 
